@@ -4,7 +4,7 @@ build_7z(folders, files, pack_streams)
   folders: list of dict(coder=b"\\x00"|b"\\x21"|..., props=bytes|None,
                         unpack_size=int, sub_sizes=[int,...] (sizes of files in folder))
   pack_streams: list of bytes, concatenated after the signature header
-  files: list of dict(name=str | list-of-utf16-code-units, empty=bool, attr=int|None)
+  files: list of dict(name=str | list-of-utf16-code-units, empty=bool, empty_file=bool, attr=int|None)
 """
 import struct
 import zlib
@@ -86,6 +86,9 @@ def build_header(folders, files, pack_sizes) -> bytes:
     if any(f.get("empty") for f in files):
         vec = boolvec([bool(f.get("empty")) for f in files])
         h += bytes([0x0E]) + num(len(vec)) + vec
+        if any(f.get("empty_file") for f in files):  # kEmptyFile: one bit per empty-stream entry, set = zero-length file
+            vec = boolvec([bool(f.get("empty_file")) for f in files if f.get("empty")])
+            h += bytes([0x0F]) + num(len(vec)) + vec
     names = b"\x00" + b"".join(utf16_units(f["name"]) for f in files)
     h += bytes([0x11]) + num(len(names)) + names
     if any(f.get("attr") is not None for f in files):
